@@ -10,7 +10,6 @@ import numpy as np
 import pandas as pd
 
 from dask.base import tokenize
-from dask.core import flatten
 from dask.dataframe._compat import (
     PANDAS_GE_220,
     PANDAS_GE_300,
@@ -1221,12 +1220,7 @@ def _unique_aggregate(series_gb, name=None):
 
 
 def _value_counts(x, **kwargs):
-    if not x.groups or all(
-        pd.isna(key) for key in flatten(x.groups.keys(), container=tuple)
-    ):
-        return pd.Series(dtype=int)
-    else:
-        return x.value_counts(**kwargs)
+    return x.value_counts(**kwargs)
 
 
 def _value_counts_aggregate(series_gb):
